@@ -31,11 +31,25 @@ def dispatch (j : Json) : List (String × Json) :=
   | "yvals" => V.handle j
   | k => [("m", Json.str ("unknown-kind:" ++ k)), ("s", Json.str "unknown-kind")]
 
+/-- C06: the sub-cases are ordinary c01 / c02 cases; the model's prediction is what each gives in isolation -/
+def handleConc (j : Json) : List (String × Json) :=
+  let subs := jarr j "subs"
+  let outs := subs.map dispatch
+  let field (k : String) (o : List (String × Json)) : String :=
+    match o.lookup k with | some (.str s) => s | _ => (match o.lookup "m" with | some (.str s) => s | _ => "")
+  [("m", Json.str ("\n".intercalate (outs.map (field "m") ++ ["conc:same"]))),
+   -- whether the isolated result is the XPath 1.0 value is C01's question; here the specification is
+   -- "every run gives what the machine gives in isolation"
+   ("s", Json.str ("\n".intercalate (outs.map (field "m") ++ ["conc:same"])))]
+
+def dispatch2 (j : Json) : List (String × Json) :=
+  if jstr j "k" = "yconc" then handleConc j else dispatch j
+
 partial def loop (hin : IO.FS.Stream) (hout : IO.FS.Stream) : IO Unit := do
   let line ← hin.getLine
   if line.isEmpty then return ()
   let out := match Json.parse line with
-    | .ok j => mkOut (jnat j "id") (dispatch j)
+    | .ok j => mkOut (jnat j "id") (dispatch2 j)
     | .error e => mkOut 0 [("m", Json.str ("json-error:" ++ e)), ("s", Json.str "json-error")]
   hout.putStrLn out.compress
   loop hin hout
